@@ -317,6 +317,32 @@ def run(ctx):
         ctx.check(norm(p.outcome[1]) == want, 'C19.5', 'select_mode:%d-collected' % min(k, 2), f_sel.loc(), 'a mode is returned iff exactly one was requested',
                   '%d modes requested -> %s' % (k, norm(p.outcome[1])))
     ctx.floor('C19.5', nsel, 3, 'feasible paths of _select_mode')
+    # which request asks for which mode: a value option counts as given when it is not None (an empty value is still a request)
+    def m_mode(a):
+        t = a.text
+        m_ = re.match(r"^'(\w)' == command_id$", t)
+        if m_:
+            return ('cmd_' + m_.group(1), True)
+        if t == "'' == command_id":
+            return ('cmd_none', True)
+        if t == 'check_gdb()':
+            return ('in_gdb', True)
+        if t == 'args.path is None':
+            return ('path', False)
+        if t == 'args.pipe':
+            return ('pipe', True)
+        return None
+    MODES = {'GDB_RUNNER': 'cmd_g', 'RUN': 'cmd_r', 'GDB_PLUGIN': 'in_gdb', 'LOAD_FROM_FILE': 'path', 'PIPE': 'pipe'}
+    selp2 = [p for p in selp if not (p.outcome and p.outcome[0] == 'raise')]
+    for mode, atom in sorted(MODES.items()):
+        probs = check_reach(selp2, lambda e, mode=mode: e.kind == 'call' and e.ftext == 'modes.append' and e.args and norm(e.args[0]).endswith('Mode.' + mode), m_mode,
+                            lambda F, atom=atom: F[atom], feasible=lambda F: sum(1 for k in ('cmd_g', 'cmd_r', 'cmd_none') if F[k]) == 1,
+                            universe=['cmd_g', 'cmd_r', 'cmd_none', 'in_gdb', 'path', 'pipe'])
+        ctx.check(not probs, 'C19.5', 'select_mode:requested:%s' % mode, f_sel.loc(),
+                  'mode %s counts as requested exactly when %s' % (mode, {'cmd_g': 'the marker was -g', 'cmd_r': 'the marker was -r', 'in_gdb': 'we run inside GDB', 'path': 'a load path was given (not None)', 'pipe': 'the pipe flag is set'}[atom]),
+                  'mode %s requested=%s in scenario %s: the mode count (exactly one) is taken over the wrong set of requests' % ((mode, probs[0][2], probs[0][1]) if probs else (mode, '', '')))
+    others = {norm(e.args[0]) for p in selp for e in p.events if e.kind == 'call' and e.ftext == 'modes.append' and e.args} - {'Mode.' + m for m in MODES}
+    ctx.check(not others, 'C19.5', 'select_mode:known-modes', f_sel.loc(), 'only the five modes are ever requested', 'other requests: %s' % sorted(others))
     pap = None
     nonec = [x for x in f_pa.body_nodes() if isinstance(x, ast.If) and norm(x.test) in ('mode is None', 'not mode', 'None is mode')]
     ok = False
